@@ -59,7 +59,7 @@ theorem Quat_mul {α : Type} [CommRing α] (a b : Quat α) :
         a.r * b.v.y + b.r * a.v.y + (a.v.z * b.v.x - a.v.x * b.v.z),
         a.r * b.v.z + b.r * a.v.z + (a.v.x * b.v.y - a.v.y * b.v.x)⟩⟩ := by
   unfold Gen.Quat.mul
-  congr 1; congr 1 <;> ring
+  first | rfl | (congr 1 <;> first | rfl | ring | (congr 1 <;> first | rfl | ring))
 theorem Quat_mulAssign {α : Type} [CommRing α] (a b : Quat α) : Gen.Quat.mulAssign a b = Gen.Quat.mul a b := by
   rfl
 
@@ -86,7 +86,7 @@ theorem M44_multiplyStatic3 {α : Type} [CommRing α] (a b : M44 α) : Gen.M44.m
 
 theorem Quat_mulAssignSelf {α : Type} [CommRing α] (a : Quat α) : Gen.Quat.mulAssignSelf a = Gen.Quat.mul a a := by
   unfold Gen.Quat.mulAssignSelf Gen.Quat.mul
-  congr 1; congr 1 <;> ring
+  first | rfl | (congr 1 <;> first | rfl | ring | (congr 1 <;> first | rfl | ring))
 theorem M22_mulAssignSelf {α : Type} [CommRing α] (a : M22 α) : Gen.M22.mulAssignSelf a = Gen.M22.mul a a := by
   simp only [Gen.M22.mulAssignSelf, Gen.M22.mul]
 theorem M33_mulAssignSelf {α : Type} [CommRing α] (a : M33 α) : Gen.M33.mulAssignSelf a = Gen.M33.mul a a := by
